@@ -199,4 +199,7 @@ fn run(ctx: &mut Ctx) {
         Case::new(vec![scalar(idx).unwrap().to_string()], esc(i % 2 == 1))
     }, &case_fn);
     let _ = Tier::Quick;
+    if ctx.tier == crate::runner::Tier::Thorough {
+        ctx.fuzz_campaign("fuzz_build", 10000);
+    }
 }
